@@ -155,9 +155,9 @@ def bigTotal (b : Stakes) : Nat := (b.map (·.2)).sum
 /-- big.Int.BitLen -/
 def bitLen (n : Nat) : Nat := if n = 0 then 0 else n.log2 + 1
 
-/-- the common shift chosen by Build (test and else-value regenerated) -/
+/-- the common shift chosen by Build (test and both values regenerated) -/
 def bigShift (total : Nat) : Nat :=
-  if Gen.PosBig.overBits (bitLen total) then bitLen total - 31 else Gen.PosBig.shiftInit
+  if Gen.PosBig.overBits (bitLen total) then Gen.PosBig.shiftValue (bitLen total) else Gen.PosBig.shiftInit
 
 /-- `Weight(new(big.Int).Rsh(w, shift).Uint64())`: low 64 bits, then truncated to uint32 -/
 def scale (shift w : Nat) : Nat := (w >>> shift) % 18446744073709551616 % 4294967296
